@@ -629,6 +629,7 @@ class Lexer:
             TokenType.SINGLE_QUOTE_STRING,
             TokenType.DOUBLE_QUOTE_STRING,
             TokenType.PATH,
+            TokenType.WORD,
         ):
             self.raise_for_token(
                 "expected an integer or variable to start a range expression, "
